@@ -903,7 +903,12 @@ func (p *parser) parseConditionalExpression() ast.Expression {
 		}
 		p.next()
 
+		// 11.12: the middle operand is an AssignmentExpression also in the NoIn
+		// variant (ConditionalExpressionNoIn), so `in` is allowed there.
+		allowIn := p.scope.allowIn
+		p.scope.allowIn = true
 		consequent := p.parseAssignmentExpression()
+		p.scope.allowIn = allowIn
 		if p.mode&StoreComments != 0 {
 			p.comments.Unset()
 		}
